@@ -1,16 +1,72 @@
 (* C19 — Serialization round-trips Polylines and Planes at the stated precision.
    Only statements; each closed by `exact <lemma>` from proofs/P_serialize.v.
-   The model (M_serialize.v) is of the code with the two proposed fixes fixes/C19-*.diff applied. *)
+   The model (M_serialize.v) is of the code with the two proposed fixes applied:
+   fixes/C19-empty-polyline-deserialize.diff and fixes/C19-plane-rounded-direction-decimals.diff.
+   The schema term polliwog_defs is compared with the freshly extracted polliwog/schema.json on every run. *)
 From Coq Require Import ZArith Reals List Bool String.
 From PW Require Import Num NumR Vec NpList Result.
 From PW.model Require Import M_polyline_base M_plane M_serialize.
 From PW.proofs Require Import P_serialize.
 Import ListNotations.
 Local Open Scope R_scope.
+Local Open Scope string_scope.
 
 (* np.around to d decimals moves a coordinate by at most half a unit of the last kept decimal (every d, every x) *)
 Theorem C19_round_error_half_ulp : forall d x, Rabs (round_dec ROps d x - x) <= / 2 * / pow10 ROps d.
 Proof. exact round_error_half_ulp. Qed.
 
-Definition C19_all := (C19_round_error_half_ulp).
+(* serialize returns a document that passes validate: every polyline (no vertices included), every precision *)
+Theorem C19_serialize_validates : forall d (p : polyline R), pl_validate (pl_serialize ROps d p) = true.
+Proof. exact serialize_validates. Qed.
+(* deserialize(serialize(p, d)) = rounded(p, d): same closedness, vertices rounded; the empty polyline included *)
+Theorem C19_roundtrip_polyline : forall d (p : polyline R),
+  pl_deserialize (pl_serialize ROps d p) = Ok (pl_rounded ROps d p) /\
+  pclosed (pl_rounded ROps d p) = pclosed p /\ pv (pl_rounded ROps d p) = map (vround ROps d) (pv p).
+Proof. intros d p. split; [apply roundtrip_polyline|split; reflexivity]. Qed.
+
+(* Plane: whenever rounded succeeds, serialize returns a valid document of the rounded plane; deserialize re-checks
+   unit length at the default precision and, at the default direction precision, returns rounded() itself *)
+Theorem C19_roundtrip_plane : forall pd dd (pl r : plane R), plane_rounded ROps pd dd pl = Ok r ->
+  plane_serialize ROps pd dd pl = Ok (plane_to_json r) /\ plane_validate (plane_to_json r) = true /\
+  plane_deserialize ROps (plane_to_json r) = plane_ctor ROps (pref r) (pnormal r) default_dd /\
+  (dd = default_dd -> plane_deserialize ROps (plane_to_json r) = Ok r).
+Proof. exact roundtrip_plane. Qed.
+(* rounded (with the fix) validates the rounded normal at the requested precision, and what it returns is the
+   coordinate-wise rounding.  MISSING (not proved): that the test always passes for an exactly unit normal, i.e.
+   | |round(n)| - 1 | <= sqrt(3)/2 * 10^-dd < 10^-dd — validated by the correspondence for dd = 0..12 only *)
+Theorem C19_plane_rounded_is_coordinatewise_partial : forall pd dd (pl r : plane R),
+  plane_rounded ROps pd dd pl = Ok r -> pref r = vround ROps pd (pref pl) /\ pnormal r = vround ROps dd (pnormal pl).
+Proof.
+  intros pd dd pl r H. unfold plane_rounded, plane_ctor in H.
+  destruct (nleb ROps _ _) in H; [|discriminate]. injection H as <-. split; reflexivity.
+Qed.
+
+(* validate accepts only well-formed documents: an object with exactly the two keys, a boolean isClosed, and vectors
+   that are arrays of exactly three numbers (so: missing key, extra key, non-boolean isClosed, bad vector are refused) *)
+Theorem C19_validate_polyline_only_wellformed : forall j : json R, pl_validate j = true ->
+  exists kv l b, j = JObj kv /\ assoc "vertices" kv = Some (JArr l) /\ assoc "isClosed" kv = Some (JBool b) /\
+    (forall k v, In (k, v) kv -> k = "vertices" \/ k = "isClosed") /\
+    (forall e, In e l -> exists x y z, e = JArr [JNum x; JNum y; JNum z]).
+Proof. exact pl_validate_wellformed. Qed.
+Theorem C19_validate_plane_only_wellformed : forall j : json R, plane_validate j = true ->
+  exists kv, j = JObj kv /\
+    (exists x y z, assoc "referencePoint" kv = Some (JArr [JNum x; JNum y; JNum z])) /\
+    (exists x y z, assoc "unitNormal" kv = Some (JArr [JNum x; JNum y; JNum z])) /\
+    (forall k v, In (k, v) kv -> k = "referencePoint" \/ k = "unitNormal").
+Proof. exact plane_validate_wellformed. Qed.
+
+(* deserialize never builds an object from data that validate refuses *)
+Theorem C19_deserialize_guarded_by_validate : forall (j : json R),
+  (forall p, pl_deserialize j = Ok p -> pl_validate j = true) /\
+  (forall p, plane_deserialize ROps j = Ok p -> plane_validate j = true).
+Proof. intros j. split; [apply pl_deserialize_guarded|apply plane_deserialize_guarded]. Qed.
+
+(* non-vacuity: the empty polyline serializes to a document that validates and round-trips *)
+Example C19_empty_polyline_roundtrips :
+  pl_deserialize (pl_serialize ROps 3 (MkPolyline (F:=R) [] true)) = Ok (MkPolyline [] true).
+Proof. exact (roundtrip_polyline 3 (MkPolyline [] true)). Qed.
+
+Definition C19_all := (C19_round_error_half_ulp, C19_serialize_validates, C19_roundtrip_polyline, C19_roundtrip_plane,
+  C19_plane_rounded_is_coordinatewise_partial, C19_validate_polyline_only_wellformed,
+  C19_validate_plane_only_wellformed, C19_deserialize_guarded_by_validate).
 Print Assumptions C19_all.
